@@ -7,7 +7,7 @@ import random
 
 BASIC = ["u8", "str", "bytes", "cu", "bstr", "bslice", "bu8"]
 NESTED_TYS = ["inA", "inM", "e2", "e2x", "e2u", "io", "iox", "e2m", "e2mu", "e2a", "e2au"]
-TAGS = [0, 7, 23, 24, 255, 256, 65535, 65536]
+TAGS = [0, 7, 23, 24, 255, 256, 65535, 65536, -2, -3]      # -2 / -3: 2^32 and 2^64 - 1 (spec/Derive.tla!TagNum)
 COMPAT = {"e2": ["e2x", "e2u"], "e2x": ["e2"], "e2u": ["e2"], "io": ["iox"], "iox": ["io"], "e2m": ["e2mu"], "e2mu": ["e2m"], "e2a": ["e2au"], "e2au": ["e2a"]}
 
 
